@@ -65,6 +65,13 @@ def extract(repo, outdir, crates="heathcliff", manifest=None):
     ensure_hcx()
     os.makedirs(CACHE, exist_ok=True)
     tgt = os.path.join(CACHE, "tgt")
+    slot = os.environ.get("HCHECK_SLOT")
+    if slot:
+        # parallel runs (bin/mutants, bin/refcheck): one target directory per worker, hard-linked from the shared one
+        st = os.path.join(CACHE, "tgt-" + slot)
+        if not os.path.isdir(st) and os.path.isdir(tgt):
+            subprocess.run(["cp", "-al", tgt, st], check=False)
+        tgt = st
     env = dict(os.environ)
     env.update({
         "LD_LIBRARY_PATH": os.path.join(_sysroot(), "lib"),
@@ -96,7 +103,8 @@ def extract(repo, outdir, crates="heathcliff", manifest=None):
 def facts_dir(repo=REPO):
     """Return a directory holding facts for the current state of `repo`."""
     os.makedirs(CACHE, exist_ok=True)
-    with open(os.path.join(CACHE, "lock"), "w") as lk:
+    slot = os.environ.get("HCHECK_SLOT", "")
+    with open(os.path.join(CACHE, "lock" + ("-" + slot if slot else "")), "w") as lk:
         fcntl.flock(lk, fcntl.LOCK_EX)
         key = tree_hash(repo)
         d = os.path.join(CACHE, "facts-" + key)
@@ -105,10 +113,11 @@ def facts_dir(repo=REPO):
         if not os.path.isfile(os.path.join(d, "DONE")):
             extract(repo, d)
         os.utime(d, None)
-        # keep at most 4 cache entries
+        # keep at most 4 cache entries (more while parallel scratch runs are in flight)
+        keep = int(os.environ.get("HCHECK_CACHE_KEEP", "4"))
         ents = sorted((e for e in os.listdir(CACHE) if e.startswith("facts-")),
                       key=lambda e: os.path.getmtime(os.path.join(CACHE, e)))
-        for e in ents[:-4]:
+        for e in ents[:-keep]:
             shutil.rmtree(os.path.join(CACHE, e), ignore_errors=True)
         return d
 
@@ -136,6 +145,69 @@ class Facts:
             with open(os.path.join(self.dir, "hir.json")) as fh:
                 self._hir = json.load(fh)
         return self._hir
+
+    # ------------------------------------------------------------------ helper inlining (opt-in view)
+    def inlinable(self, caller, d):
+        """a private, non-trait, same-file helper of the crate: the kind of function an extract-method refactor creates"""
+        it, ci = self.items.get(d), self.items.get(caller)
+        if it is None or ci is None or d not in self.hir or d == caller:
+            return False
+        if it.get("impl_trait") or it.get("vis") == "pub" or it.get("file") != ci.get("file"):
+            return False
+        return True
+
+    def callers_of(self, d):
+        cc = self.__dict__.get("_callers")
+        if cc is None:
+            cc = {}
+            for p_, es in self.callgraph().items():
+                if self.items.get(p_, {}).get("kind") == "test" or "::tests::" in p_:
+                    continue
+                for t, _ in es:
+                    cc.setdefault(t, set()).add(p_)
+            self.__dict__["_callers"] = cc
+        return cc.get(d, set())
+
+    def extracted_helper(self, d):
+        """private helper with a single calling function (what an extract-method refactor leaves behind)"""
+        return len(self.callers_of(d)) == 1
+
+    def inlined(self, fpath, depth=2, pred=None):
+        """The body of fpath with calls to private same-file helpers replaced by `Inl` nodes
+             {"k": "Inl", "callee": path, "stmts": [Let param = arg ...], "body": <helper body>, "t": .., "l": .., "orig": call}
+        (locals and node ids of the helper renumbered so they cannot clash with the caller's).  Rules that have no callee
+        summaries of their own analyse this view so that an extract-method refactor does not hide code from them."""
+        key = (fpath, depth, id(pred))
+        cache = self.__dict__.setdefault("_inl_cache", {})
+        if key not in cache:
+            self._inl_counter = self.__dict__.get("_inl_counter", 0)
+            cache[key] = self._inline(self.hir[fpath], fpath, depth, (fpath,), pred)
+        return cache[key]
+
+    def _inline(self, n, owner, depth, stack, pred):
+        if isinstance(n, list):
+            return [self._inline(x, owner, depth, stack, pred) for x in n]
+        if not isinstance(n, dict):
+            return n
+        out = {k: (self._inline(v, owner, depth, stack, pred) if isinstance(v, (dict, list)) and k != "f" else v)
+               for k, v in n.items()}
+        if n.get("k") in ("Call", "MCall") and depth > 0:
+            f = n.get("f")
+            if isinstance(f, dict) and f.get("local"):
+                d = f.get("inst") if f.get("inst") in self.hir else f.get("def")
+                if d not in stack and self.inlinable(owner, d) and (pred is None or pred(d)):
+                    it = self.items[d]
+                    args = ([out["recv"]] if n["k"] == "MCall" else []) + out.get("args", [])
+                    if len(args) == len(it["params"]):
+                        self._inl_counter += 1
+                        base = self._inl_counter * 1000000
+                        hb = _renumber(self._inline(self.hir[d], d, depth - 1, stack + (d,), pred), base)
+                        lets = []
+                        for prm, a in zip(it["params"], args):
+                            lets.append({"k": "Let", "l": n.get("l"), "pat": _renumber(prm["pat"], base), "init": a})
+                        return {"k": "Inl", "t": n.get("t"), "l": n.get("l"), "c": n.get("c"), "id": n.get("id"),
+                                "callee": d, "name": it["name"], "stmts": lets, "body": hb, "orig": n}
+        return out
 
     @property
     def mir(self):
@@ -249,6 +321,22 @@ def load(repo=None):
 # -------------------------------------------------------------------- tree utilities
 CHILD_KEYS = ("stmts", "expr", "e", "args", "recv", "a", "b", "c", "th", "el", "arms", "body", "init",
               "els", "lhs", "rhs", "i", "es", "fields", "base", "iter", "fe", "guard", "pat", "params", "sub", "ps")
+
+
+def _renumber(n, base):
+    if isinstance(n, list):
+        return [_renumber(x, base) for x in n]
+    if not isinstance(n, dict):
+        return n
+    out = {}
+    for k, v in n.items():
+        if k in ("lid", "id", "target", "loop_id") and isinstance(v, int):
+            out[k] = v + base
+        elif isinstance(v, (dict, list)) and k != "f":
+            out[k] = _renumber(v, base)
+        else:
+            out[k] = v
+    return out
 
 
 def children(n):
